@@ -119,7 +119,7 @@ def run_case(case):
                 Mtr = sp.csr_array((aarr.ravel() / float(dt), (rows, rows)), shape=(nfull, nfull))
                 rtr = np.zeros(nfull)
                 rtr[rows] = aarr.ravel() * old.ravel() / float(dt)
-                e = residual_err(Mtr + S, x, rtr + bvec, rows, solver_output=True)
+                e = residual_err(Mtr + S, x, rtr + bvec, rows, solver_output=True, solved=(M, b))
                 maxerr['be-residual'] = max(maxerr.get('be-residual', 0.0), e)
                 cov['be_steps'] = cov.get('be_steps', 0) + 1
                 cov['alpha:' + akind] = 1
@@ -305,11 +305,11 @@ def run_case(case):
                     Mtr = sp.csr_array((aarr.ravel() / dt, (rows, rows)), shape=(nfull, nfull))
                     rtr = np.zeros(nfull)
                     rtr[rows] = aarr.ravel() * old.ravel() / dt
-                    e = residual_err(Mtr + S, x, rtr + bvec, rows, solver_output=True)
+                    e = residual_err(Mtr + S, x, rtr + bvec, rows, solver_output=True, solved=(M, b))
                     # the same equations on the REPORTED new variable (solved interior + re-imposed boundary values): recomputed
                     # ghosts carry the solver's backward error divided by the ghost coefficient, hence 1e-7 (defects give >= 1e-3)
                     xr = np.asarray(phi._value, dtype=float).ravel()
-                    e_rep = residual_err(Mtr + S, xr, rtr + bvec, rows, solver_output=True)
+                    e_rep = residual_err(Mtr + S, xr, rtr + bvec, rows, solver_output=True, solved=(M, b))
                     e_twin = residual_err(M, xt, b, solver_output=True)
                     maxerr['loop-be-residual'] = max(maxerr.get('loop-be-residual', 0.0), e)
                     maxerr['loop-be-residual-reported'] = max(maxerr.get('loop-be-residual-reported', 0.0), e_rep)
